@@ -233,6 +233,30 @@ def countTag (g : Tag) (isAlloc : Bool) (tr : List Ev) : Nat :=
     | .free i => !isAlloc && i.tag == g).length
 
 
+mutual
+/-- no string / list / map below a fixed-length list (`uf`: one lies above) -/
+def cleanTy (uf : Bool) : Ty → Bool
+  | .string => !uf
+  | .list e => !uf && cleanTy uf e
+  | .map k v => !uf && cleanTy uf k && cleanTy uf v
+  | .flist e _ => cleanTy true e
+  | .record fs | .tuple fs => cleanAll uf fs
+  | .variant cs => cleanAllOpt uf cs
+  | .option t => cleanTy uf t
+  | .result a b => cleanOpt uf a && cleanOpt uf b
+  | _ => true
+def cleanAll (uf : Bool) : List Ty → Bool
+  | [] => true
+  | t :: ts => cleanTy uf t && cleanAll uf ts
+def cleanOpt (uf : Bool) : Option Ty → Bool
+  | none => true
+  | some t => cleanTy uf t
+def cleanAllOpt (uf : Bool) : List (Option Ty) → Bool
+  | [] => true
+  | t :: ts => cleanOpt uf t && cleanAllOpt uf ts
+end
+
+
 def isGuestTag (g : Tag) : Bool := g == .vec || g == .user || g == .shrunk || g == .out
 
 def countEv (p : Ev → Bool) (tr : List Ev) : Nat := (tr.filter p).length
